@@ -69,6 +69,11 @@ def check(R, F, P, cfg):
     for n in S.calls_to("utils::cc_dealloc"):
         rm = [x for x in S.calls_to("cc::remove_from_list") if obj_of(S.args_of(x)[0]) == selfobj and S.dominates(x, n, exclude=("ui", "u"))]
         R.inst("R1.2", "unbuffer-before-free", bool(rm), "cc_dealloc(self) in Cc::drop is %sdominated by remove_from_list(self): a freed object would stay linked in the buffer otherwise" % ("" if rm else "NOT "), where=n.where(), cfg=cfg)
+    for n in [x for x in S.usite_nodes(("DROP",)) if x.ci["k"] == "call"]:
+        rm = [x for x in S.calls_to("cc::remove_from_list") if obj_of(S.args_of(x)[0]) == selfobj and S.dominates(x, n, exclude=("ui", "u"))]
+        dec = [x for x in S.calls_to(CM + "decrement_counter") if obj_of(S.args_of(x)[0]) == selfobj and S.dominates(x, n, exclude=("ui", "u"))]
+        R.inst("R1.2", "unbuffer-before-payload-drop", bool(rm) and bool(dec),
+               "the payload destructor (user code: may panic or start a collection) runs %s remove_from_list(self) and %s the decrement to 0: a box that is still buffered with count 0 while its value is being/has been dropped would be traced and reclaimed again by the next collection" % ("after" if rm else "BEFORE", "after" if dec else "BEFORE"), where=n.where(), cfg=cfg)
     for n in S.calls_to("cc::add_to_list"):
         lits = S.literals_at(n, exclude=("ui", "u"))
         ok = has_lit(lits, CM + "is_in_list_or_queue", False, selfobj)
